@@ -38,7 +38,7 @@ def gen_hist(rng, profile, n):
         if alive and r < 0.75:
             k = rng.choice(alive)
         if profile == "dom":
-            kinds = [0] * 6 + [1] * 3 + [2] + [3] * 4 + [4] * 3
+            kinds = [0] * 6 + [1] * 3 + [2] + [3] * 4 + [4] * 3 + [5] * 2 + [6] * 3 + [7] * 2
         else:
             kinds = [0] * 5 + [1] * 2 + [2] + [3] * 3 + [4] * 2 + [5] * 2 + [6] * 2 + [7] * 2 + [8] * 2
         kind = rng.choice(kinds) if len(h) >= 2 else 0
@@ -69,7 +69,10 @@ def gen_hist(rng, profile, n):
         elif kind == 6:
             h.append([6, k, S(rng.choice(COLS)), S(rng.choice(COLS))])
         elif kind == 7:
-            h.append([7, k, [k[0], k[1], S(rng.choice(TABLES))]])
+            k2 = [k[0], k[1], S(rng.choice(TABLES))]
+            h.append([7, k, k2])
+            if k in alive and k2 not in alive:
+                alive[alive.index(k)] = k2
         else:
             h.append([8, k, [k[0], k[1], S(rng.choice(TABLES))]])
     return h
@@ -181,7 +184,8 @@ def main():
     def ic(n_):
         return [S(n_), [1, 1]]
 
-    # the witnesses of Props_C09.*_refuted and the example of meta_holds_somewhere, replayed on the implementation
+    # the witnesses of Props_C09.*_refuted (and of the former rename / re-add findings, fixed by 6836b10) and the example of
+    # meta_holds_somewhere, replayed on the implementation
     fixed = [
         [[0, 0, K("R1"), [vc("V", 7)], []], [6, K("R1"), S("V"), S("W")]],
         [[0, 0, K("R1"), [ic("A")], [S("c")]], [7, K("R1"), K("R2")], [0, 0, K("R1"), [ic("A")], []]],
@@ -190,7 +194,8 @@ def main():
         [[3, K("T9"), S("x")], [0, 0, K("T9"), [ic("A")], []]],
         [[0, 0, K("T1"), [ic("A"), vc("B", 10), vc("C", None)], [S("first")]], [1, K("T1")], [0, 0, K("T1"), [vc("B", None), ic("C")], []],
          [0, 1, K("T1"), [vc("B", 3)], [S("it's")]], [4, K("T1"), vc("D", 255)], [0, 0, K("T1", "S2"), [vc("B", 5)], [S("other")]], [2, S("DB1"), S("S2")],
-         [0, 0, K("T1", "S2"), [vc("B", None)], []], [3, K("T1"), S("last")]],
+         [0, 0, K("T1", "S2"), [vc("B", None)], []], [3, K("T1"), S("last")], [6, K("T1"), S("B"), S("E")], [5, K("T1"), S("D")], [4, K("T1"), ic("D")],
+         [7, K("T1"), K("T2")], [0, 0, K("T1"), [vc("E", None)], []]],
     ]
     for i in range(nh + len(fixed)):
         profile = "dom" if i % 3 != 2 else "any"
@@ -249,8 +254,7 @@ def main():
                     if in_dom:
                         raise core.MachineryError(f"model: fake answers differ from the declarations inside dom: {x} vs {want_c} {want_d} - contradicts metadata_exact_partial")
                     kinds = {o[0] for o in h[: j + 1]}
-                    fid = ("C09-rename-loses-metadata" if kinds & {6, 7} else "C09-clone-loses-lengths" if 8 in kinds else "C09-readd-column-stale-length" if 5 in kinds
-                           else "C09-comment-on-missing-table" if 3 in kinds else None)
+                    fid = "C09-clone-loses-lengths" if 8 in kinds else "C09-comment-on-missing-table" if 3 in kinds else None
                     what = f"table {'.'.join(unstr(p) for p in x[0])}: comment {x[1]} / columns {x[2]} but the latest declarations say {want_c} / {want_d}"
                     if fid:
                         known_or_report(fid, what, rep)
@@ -274,12 +278,13 @@ def main():
                         if (want_ty and dt != want_ty) or (not want_ty and not dt.startswith(ity)) or (dnull == "Y") != (inull == "YES"):
                             report("types", f"{t['t']}.{dn}: DESCRIBE says {dt} null={dnull}, information_schema.columns says {ity} len={ilen} nullable={inull}", dict(rep, table=t))
                         if ity != "TEXT" and ilen is not None:
-                            known_or_report("C09-readd-column-stale-length", f"{t['t']}.{dn}: a {ity} column reports character_maximum_length {ilen}", dict(rep, table=t))
+                            report("stale-length", f"{t['t']}.{dn}: a {ity} column reports character_maximum_length {ilen}", dict(rep, table=t))
     if n_dom < nh * 0.4:
         raise core.MachineryError(f"only {n_dom}/{nh} histories inside dom")
     # (4) witnesses of the refuted statements / recorded findings, replayed
     probes = {
-        "C09-rename-loses-metadata": ["create table r1 (v varchar(7)) comment = 'c'", "alter table r1 rename column v to w", "describe table r1"],
+        "rename-column": ["create table r1 (v varchar(7)) comment = 'c'", "alter table r1 rename column v to w", "describe table r1"],
+        "rename-table": ["create table r2 (v varchar(7)) comment = 'c'", "alter table r2 rename to r3", "describe table r3"],
         "C09-clone-loses-lengths": ["create table c1 (v varchar(7))", "create table c2 clone c1", "describe table c2"],
     }
     fs, conn = fsutil.fresh()
@@ -327,7 +332,7 @@ def main():
     ck.cov["inside_dom"] = n_dom
     ck.cov["samples"] += [{"statements": sql_logs[0][:6]}]
     return ck.finish(rule="random DDL histories over 2 databases x 2 schemas x 3 tables x 5 column names (CREATE [OR REPLACE] with/without comment and VARCHAR lengths, DROP, DROP SCHEMA + re-create, "
-                          "COMMENT ON / SET COMMENT, ADD/DROP/RENAME COLUMN, RENAME TABLE, CLONE/CTAS; random qualification and case); after EVERY statement and for every live table: comment, "
+                          "COMMENT ON / SET COMMENT, ADD/DROP/RENAME COLUMN, RENAME TO, CLONE/CTAS; random qualification and case); after EVERY statement and for every live table: comment, "
                           "DESCRIBE TABLE and information_schema.columns lengths vs the model; vs the latest declarations (the property); SHOW TABLES / TERSE / OBJECTS / SCHEMAS, "
                           "information_schema.tables/columns, DESCRIBE and the description of SELECT * vs each other; non-trivial = histories reaching >= 2 live tables")
 
